@@ -418,6 +418,53 @@ def runProg (k : Kymo) : List Track → List Op → List (Option Err) × List Tr
     | .ok g' => let r := runProg k g' ops; (none :: r.1, r.2)
     | .error e => let r := runProg k g ops; (some e :: r.1, r.2)
 
+/-! ### centroid refinement: `refine_peak_based_on_moment` without bias correction
+
+  `m0 = convolve2d(data, ones, "same")`, `subpixel_offset = convolve2d(data, [h … −h], "same") / (m0 + eps)`,
+  the pixel is moved by one while `|offset| > 0.5` (clamped to the image, at most `max_iter` rounds),
+  the refined coordinate is `pixel + offset[pixel]`.  One scan line at a time (`line[p]` = pixel `p`). -/
+
+/-- `data[p]` with the zero padding of `convolve2d(…, "same")` -/
+def dAt (line : List Rat) (p : Int) : Rat := if p < 0 then 0 else (line[p.toNat]?).getD 0
+
+/-- `convolve2d(data, kernel[:, None], "same")[p]` for a kernel of length `2h+1`:
+    `Σ_i kernel[i] · data[p + h − i]` -/
+def convSame (line : List Rat) (kernel : List Rat) (h : Nat) (p : Int) : Rat :=
+  ((List.range kernel.length).map fun (i : Nat) => (kernel[i]?).getD 0 * dAt line (p + (h : Int) - (i : Int))).sum
+
+/-- `np.arange(h, -(h + 1), -1)` -/
+def dirKernel (h : Nat) : List Rat := (List.range (2 * h + 1)).map fun (i : Nat) => (((h : Int) - (i : Int) : Int) : Rat)
+/-- `np.ones(2h + 1)` -/
+def meanKernel (h : Nat) : List Rat := List.replicate (2 * h + 1) 1
+
+def subpixelOffset (eps : Rat) (line : List Rat) (h : Nat) (p : Int) : Rat :=
+  convSame line (dirKernel h) h p / (convSame line (meanKernel h) h p + eps)
+
+def signInt (x : Rat) : Int := if 0 < x then 1 else if x < 0 then -1 else 0
+def absRat (x : Rat) : Rat := if x < 0 then -x else x
+
+/-- one round of the loop for one node: move by `sign(offset)` if `|offset| > 0.5`, then clamp -/
+def stepCoord (eps : Rat) (line : List Rat) (h : Nat) (c : Int) : Int :=
+  let o := subpixelOffset eps line h c
+  let c' := if 1 / 2 < absRat o then c + signInt o else c
+  if c' < 0 then 0 else if (line.length : Int) ≤ c' then (line.length : Int) - 1 else c'
+
+/-- the loop: stop as soon as a round changes nothing; `none` = "Iteration limit exceeded" -/
+def settle (eps : Rat) (line : List Rat) (h : Nat) : Nat → Int → Option Int
+  | 0, c => if stepCoord eps line h c = c then some c else none
+  | fuel + 1, c => if stepCoord eps line h c = c then some c else settle eps line h fuel (stepCoord eps line h c)
+
+/-- refined coordinate of a node: start at `round(coordinate)` (half to even), at most 99 moves -/
+def centroidCoord (eps : Rat) (img : List (List Rat)) (h : Nat) (t : Int) (x : Rat) : Option Rat :=
+  let line := (pyIndex img t).getD []
+  (settle eps line h 99 (roundHalfEven x)).map fun (c : Int) => (c : Rat) + subpixelOffset eps line h c
+
+/-- `refine_tracks_centroid(tracks, bias_correction=False)`: the refined coordinates of every track
+    (`none`: the iteration limit was hit somewhere → `RuntimeError` for the whole call) -/
+def refineCentroidCoords (eps : Rat) (img : List (List Rat)) (h : Nat) (g : List Track) :
+    Option (List (List Pt)) :=
+  g.mapM fun tr => (interpolate tr.pts).mapM fun p => (centroidCoord eps img h p.1 p.2).map fun y => (p.1, y)
+
 /-! ### the CSV file as text: version header, column titles, numeric cells
 
   `export_kymotrackgroup_to_csv` writes `# Exported with pylake v… | track coordinates v4`, then
@@ -655,6 +702,7 @@ def samplingW? (s : String) : Option (Option (Nat × Rat)) :=
   `c17.titles unit sampling hasMd`                 the column titles `export_kymotrackgroup_to_csv` writes
   `c17.fileroundtrip px pxUm lt unit sampling img T C M K`  save + import through titles and cells
   `c17.readfile px pxUm lt version titles rows`    import of a file given as version / titles / cells
+  `c17.centroid h eps img T C M K`                 lines and coordinates after centroid refinement without bias correction
   `c17.refine2 T C M K`                            scan lines of each track after refining the refined tracks again
   `c17.gauss skip w missing T C M K`               scan lines + minimum duration of each Gaussian-refined track
   `c17.fmt6 p/q`                                   value printed by `%.6e`
@@ -718,6 +766,14 @@ def handle : List String → Option String
     let v ← if version == "N" then some none else (nat? version).map some
     let rows ← ratListList? rows
     some (showExcept showGroup (importFile ky ⟨v, titles? titles, rows⟩))
+  | ["c17.centroid", h, eps, img, t, c, m, k] => do
+    let h ← nat? h; let eps ← rat? eps
+    let img ← ratListList? img
+    let g ← group? t c m k
+    match refineCentroidCoords eps img h g with
+    | none => some Err.runtime.name
+    | some r => some (showListList showInt (r.map fun tr => tr.map (·.1)) ++ " " ++
+        showListList showRat (r.map fun tr => tr.map (·.2)))
   | ["c17.refine2", t, c, m, k] => do
     let g ← group? t c m k
     some (showListList showInt (refineSpan (refineCentroid (fun _ c => c) (fun _ _ => 0) g)) ++ " " ++
